@@ -53,8 +53,10 @@ example : countHoles 20 [(10, 2), (30, 2), (4, 2)] = 2 ∧ removedBefore [(10, 2
 
 /-! ## `_apply_relaxation_holes` -/
 
-/-- new data = old data with the hole bytes removed -/
+/-- new data = old data with the hole bytes removed: literally (`removeBytes` drops the bytes whose index
+    lies in a hole), by length, and index by index through `φ` -/
 def DataRemoved (hs : List Hole) (old new : List Nat) : Prop :=
+  new = removeBytes hs old ∧
   new.length + totalSize hs = old.length ∧
   ∀ o, o < old.length → inHole hs o = false → new[phi hs o]? = old[o]?
 
@@ -67,7 +69,11 @@ theorem section_data_removed (m : HoleMap) (o o' : Obj) (hok : HolesOK m) (h : a
   obtain ⟨_, _, _, _, hd, _⟩ := applyHoles_spec hok h
   refine hd.imp ?_
   intro s s' ⟨h1, h2, h3⟩
-  exact ⟨h1, h2, punch_within _ 0 _ _ (hok s.name) h3, punch_length _ _ _ h3, punch_index _ 0 _ _ (hok s.name) h3⟩
+  exact ⟨h1, h2, punch_within _ 0 _ _ (hok s.name) h3, punch_eq_removeBytes _ 0 _ _ (hok s.name) h3,
+    punch_length _ _ _ h3, punch_index _ 0 _ _ (hok s.name) h3⟩
+
+example : removeBytes [(2, 2), (6, 2)] [10, 11, 12, 13, 14, 15, 16, 17, 18] = [10, 11, 14, 15, 18] ∧
+    punch [10, 11, 12, 13, 14, 15, 16, 17, 18] [(2, 2), (6, 2)] = .ok [10, 11, 14, 15, 18] := by decide
 
 /-- every symbol that lives in a section has its offset mapped by `φ` of that section (exactly, without
     underflow); every other field and every section-less symbol is unchanged -/
@@ -366,6 +372,47 @@ theorem relaxation_is_hole_punching (o o' : Obj) (m : HoleMap) (h : doRelaxation
     obtain ⟨c, hcm, rfl⟩ := hp
     obtain ⟨e1, e2⟩ := hc c hcm
     exact ⟨c.reloc, hsub.subset (List.mem_map.2 ⟨c, hcm, rfl⟩), e2, by rw [e1]⟩
+
+/-- the candidate loop in front of the hole punching: with pairwise different section names it leaves every
+    section at its length and changes nothing but the two bytes in front of each registered hole (the
+    bytes `do_shrink` keeps); `secs` is the section list `_apply_relaxation_holes` then works on -/
+theorem candidate_loop_data (o o' : Obj) (m : HoleMap) (h : doRelaxations o = .ok (o', m))
+    (hnd : (o.sections.map (·.name)).Nodup) :
+    ∃ secs, (m = [] → o'.sections = secs) ∧
+      (m ≠ [] → ∃ rels, applyHoles m { o with sections := secs, relocs := rels } = .ok o') ∧
+      All2 (fun s s' => s'.name = s.name ∧ s'.address = s.address ∧ s'.alignment = s.alignment ∧
+        s'.data.length = s.data.length ∧
+        ∀ i, (∀ p ∈ m, p.1 = s.name → i + 2 < p.2.1 ∨ p.2.1 ≤ i) → s'.data[i]? = s.data[i]?) o.sections secs := by
+  obtain ⟨secs, cs, h1, hm, hcase⟩ := doRelaxations_inv h
+  obtain ⟨_, _, hc⟩ := scan_spec h1
+  have hd := scan_data hnd h1
+  refine ⟨secs, ?_, ?_, ?_⟩
+  · intro hm0
+    rcases hcase with ⟨_, ho⟩ | ⟨hne, _⟩
+    · rw [ho]
+    · exfalso
+      cases cs with
+      | nil => exact hne rfl
+      | cons c r => rw [hm] at hm0; simp at hm0
+  · intro hm0
+    rcases hcase with ⟨hcs, _⟩ | ⟨_, rels, _, happ⟩
+    · exfalso; rw [hcs] at hm; exact hm0 (by simpa using hm)
+    · exact ⟨rels, happ⟩
+  · refine hd.imp ?_
+    intro s s' ⟨⟨n1, n2, n3⟩, l, d⟩
+    refine ⟨n1, n2, n3, l, ?_⟩
+    intro i hi
+    apply d
+    intro c hcm hsec
+    have hne : cs.isEmpty = false := by cases cs with | nil => cases hcm | cons _ _ => rfl
+    have hp : (c.reloc.sect, c.hole) ∈ m := by
+      rw [hm, hne]
+      simp only [Bool.false_eq_true, if_false]
+      exact List.mem_map.2 ⟨c, hcm, rfl⟩
+    have := hi _ hp hsec
+    rw [(hc c hcm).1] at this
+    simp only at this
+    omega
 
 /-- non-vacuity on `exCross`: the sites are separated, both jumps are taken -/
 example : SitesSeparated exCross.relocs := by unfold SitesSeparated; decide +kernel
